@@ -638,6 +638,14 @@ func (sp *specParser) parseType() ast.Expr {
 		k := sp.parseType()
 		sp.expect(token.RBRACK)
 		return &ast.MapType{Key: k, Value: sp.parseType()}
+	case token.STRUCT:
+		sp.expect(token.LBRACE)
+		sp.expect(token.RBRACE)
+		return &ast.StructType{Fields: &ast.FieldList{}}
+	case token.FUNC:
+		sp.expect(token.LPAREN)
+		sp.expect(token.RPAREN)
+		return &ast.FuncType{Params: &ast.FieldList{}}
 	}
 	sp.fail("bad type at %q", t.lit)
 	return nil
@@ -699,6 +707,9 @@ func (sp *specParser) parsePrimary() ast.Expr {
 		// []T(x) conversion or type
 		sp.expect(token.RBRACK)
 		return &ast.ArrayType{Elt: sp.parseType()}
+	case token.MAP:
+		sp.p--
+		return sp.parseType()
 	}
 	sp.fail("unexpected token %s %q", t.tok, t.lit)
 	return nil
